@@ -251,7 +251,7 @@ class _DequeStruct(deque, ImmutableMixin, _IteratorProxyMixin):
             setattr(
                 self._instance, getattr(self._field_definition, "_name", None), copied
             )
-        super().append(x)
+        super().appendleft(x)
 
     def extend(self, iterable: Iterable):
         self._raise_if_immutable()
